@@ -299,7 +299,10 @@ MSG_RULE = ("BFS over histories of {pub by 4 users (one with forged sender heade
             "history reads, reload. suspended (C03): BFS to depth 5 / 7 over {member publishes to a group / p2p topic, root suspends / re-activates "
             "the owner, reload, re-attach, typing note}. sys (C02, C03; also a part of C07): BFS to depth 3 / 5 over publishes / attach attempts / history reads on 'sys' by an "
             "ordinary, an anonymous-level, two root users and a connection which has not logged in. races (C02, C03): all schedules up to the "
-            "deviation bound of the C14 collision scenarios which contain a publish: no session receives a message twice or out of order")
+            "deviation bound of the C14 collision scenarios which contain a publish: no session receives a message twice or out of order. "
+            "cluster (C02): every sequence up to length 4 / 5 of {member joins, channel reader joins, reader leaves, publish, publish without "
+            "echo} arriving through the real TopicMaster endpoint of the node hosting a channel-enabled group; the copies queued for the "
+            "group's and the channel's multiplexing session are judged")
 for _cid, _what in [("C03", "publish decision = attached AND W in want&given; a rejected publish leaves store, ids, frames and pushes untouched"),
                     ("C04", "history = stored minus hard-deleted minus own soft-deleted within [since,before), newest first, limit; deletion = exact union; deletion log exact"),
                     ("C09", "0<=read<=recv<=last in store, cache, {get desc}, {get sub}; marks never decrease and move only by own pub/note; relay filters"),
@@ -313,7 +316,8 @@ for _cid, _what in [("C03", "publish decision = attached AND W in want&given; a 
                     ([Part("p2p", SRV, "^TestVerif%sP2P$" % _cid, instr=True, gomaxprocs=16, deadline=(300, 2400))] if _cid in ("C02", "C03", "C09") else []) +
                     ([Part("chan", SRV, "^TestVerif%sChan$" % _cid, instr=True, gomaxprocs=16, deadline=(300, 2400))] if _cid in ("C02", "C03", "C09") else []) +
                     ([Part("sys", SRV, "^TestVerifC02Sys$", instr=True, gomaxprocs=16, deadline=(300, 2400)),
-                      Part("races", SRV, "^TestVerifC02Races$", instr=True, shards=(8, 16), deadline=(300, 3000))] if _cid == "C02" else []) +
+                      Part("races", SRV, "^TestVerifC02Races$", instr=True, shards=(8, 16), deadline=(300, 3000)),
+                      Part("cluster", SRV, "^TestVerifC02Cluster$", instr=True, shards=(8, 16), deadline=(300, 2400))] if _cid == "C02" else []) +
                     ([Part("races", SRV, "^TestVerifC03Races$", instr=True, shards=(8, 16), deadline=(300, 3000)),
                       Part("suspended", SRV, "^TestVerifC03Suspended$", instr=True, gomaxprocs=16, deadline=(300, 2400)),
                       Part("sys", SRV, "^TestVerifC03Sys$", instr=True, gomaxprocs=16, deadline=(300, 2400))] if _cid == "C03" else []) +
